@@ -20,6 +20,7 @@ func init() {
 	rt.Register("C09_exported_muladd", VerifHarness_C09_exported_muladd)
 	rt.Register("C09_platformLE", VerifHarness_C09_platformLE)
 	rt.Register("C09_inplace", VerifHarness_C09_inplace)
+	rt.Register("C09_muladd_thrice", VerifHarness_C09_muladd_thrice)
 	rt.Register("C09_inplace_row", VerifHarness_C09_inplace_row)
 	rt.Register("C09_size_mismatch", VerifHarness_C09_size_mismatch)
 }
@@ -294,5 +295,20 @@ func VerifHarness_C09_inplace_row() {
 	mulSlice(c, row, row)
 	for i := range row {
 		rt.Assert(uint16(row[i]) == rt.GFMul(uint16(c), uint16(row0[i])), "scaleRow's in-place mulSlice: element == c * previous element")
+	}
+}
+
+// Hidden state between calls: three multiply-accumulate calls of different
+// lengths in one process (tails long, short, long), each judged on its own.
+func VerifHarness_C09_muladd_thrice() {
+	lens := [][3]int{{62, 34, 62}, {34, 62, 34}, {40, 36, 44}, {6, 2, 4}}[rt.Choice("lengths", 4)]
+	for round, n := range lens {
+		c := T(rt.U16("c" + string(rune('0'+round))))
+		in := rt.Bytes("in"+string(rune('0'+round)), n)
+		out := rt.Bytes("out"+string(rune('0'+round)), n)
+		in0 := append([]byte(nil), in...)
+		out0 := append([]byte(nil), out...)
+		MulAndAddByteSliceLE(c, in, out)
+		checkMul(c, in0, in, out0, out, true, "exported")
 	}
 }
